@@ -1415,6 +1415,8 @@ package gocql
 //@   ensures old(tlsConfig.InsecureSkipVerify) || len(old(tlsConfig.ServerName)) != 0 ==> result == tlsConfig
 //@   ensures !old(tlsConfig.InsecureSkipVerify) && len(old(tlsConfig.ServerName)) == 0 ==> result != tlsConfig && fresh(result) && !result.InsecureSkipVerify
 //@   ensures !old(tlsConfig.InsecureSkipVerify) && len(old(tlsConfig.ServerName)) == 0 ==> len(result.ServerName) <= len(addr) && same(result.ServerName, addr[:len(result.ServerName)]) && (len(result.ServerName) == len(addr) || addr[len(result.ServerName)] == ':')
+// the port is what follows the LAST colon (an IPv6 literal contains colons itself)
+//@   ensures !old(tlsConfig.InsecureSkipVerify) && len(old(tlsConfig.ServerName)) == 0 ==> forall(k, len(result.ServerName) < k && k < len(addr), addr[k] != ':')
 // the shared config is never modified
 //@   ensures tlsConfig.InsecureSkipVerify == old(tlsConfig.InsecureSkipVerify) && same(tlsConfig.ServerName, old(tlsConfig.ServerName))
 
